@@ -1004,33 +1004,33 @@ func runRestartLoop(k int) {
 	hk.Stress(id, map[string]float64{"app.start.spawned": 0.3, "app.term.swap": 0.5, "proc.unreg.deleted": 0.3, "proc.run.tosleep": 0.1, "proc.run.term.err": 0.3, "proc.kill.term": 0.3}, 200*time.Microsecond)
 	defer hk.StressOff()
 
-	// what the harness has asked for, per run (attempt number)
-	var downRequested atomic.Int32 // attempt for which a stop / the death of the members has been requested
-	// a terminator that arrives at the final state swap although no member of the current run
-	// has terminated and nothing has been requested for it can only belong to an earlier run
+	// Which member does a terminator act for? The goroutine that runs application.terminate passes
+	// proc.unreg.deleted (subject: its pid) before it can reach app.term.swap. A terminator that
+	// arrives at the final state swap on behalf of a member of an EARLIER run while the current
+	// run is running/stopping is about to stop an application it does not belong to.
+	var gpid sync.Map // goroutine id -> pid
+	cancelU := hk.Observe("proc.unreg.deleted", nil, func(_ string, s any) {
+		if pid, ok := s.(gen.PID); ok {
+			if slot, _ := a.slotOf(pid); slot >= 0 {
+				gpid.Store(goid(), pid)
+			}
+		}
+	})
+	defer cancelU()
 	var staleMu sync.Mutex
 	var stale []string
 	cancel := hk.Observe("app.term.swap", hk.Eq(a.Name), func(string, any) {
-		att := a.attempt.Load()
-		if downRequested.Load() >= att {
+		v, ok := gpid.Load(goid())
+		if !ok {
 			return
 		}
+		pid := v.(gen.PID)
+		_, att := a.slotOf(pid)
+		cur := a.attempt.Load()
 		st := appState(a.Name)
-		if st != "running" && st != "stopping" {
-			return
-		}
-		dead, seen := 0, 0
-		for _, m := range a.Members() {
-			if m.Attempt == att && m.I.PID != (gen.PID{}) {
-				seen++
-				if !alive(m.I.PID) {
-					dead++
-				}
-			}
-		}
-		if dead == 0 {
+		if att < cur && (st == "running" || st == "stopping") {
 			staleMu.Lock()
-			stale = append(stale, fmt.Sprintf("tick %d: a terminator arrived at the final state swap while run %d was %s with %d spawned members, none of them terminated, and no stop or member death had been requested for that run", hk.Now(), att, st, seen))
+			stale = append(stale, fmt.Sprintf("tick %d: the terminator of member %s of run %d arrived at the final state swap while run %d was %s", hk.Now(), pid, att, cur, st))
 			staleMu.Unlock()
 		}
 	})
@@ -1058,7 +1058,6 @@ func runRestartLoop(k int) {
 			break
 		}
 		// bring it down without waiting for quiescence
-		downRequested.Store(a.attempt.Load())
 		way := rng.Intn(3)
 		switch way {
 		case 0:
@@ -1082,7 +1081,14 @@ func runRestartLoop(k int) {
 		if !hk.WaitUntil(10*time.Second, func() bool { return appState(a.Name) == "loaded" }) {
 			// stable witness or watchdog: decide at quiescence
 			if quiesce(a) && len(a.aliveSlots()) == 0 && appState(a.Name) != "loaded" {
-				d.r.v("restart-loop-app-never-stops", "round %d: no member is left but the state stays %s; trace %v; callbacks %v", r, appState(a.Name), trace, a.CBs())
+				staleMu.Lock()
+				w := append([]string(nil), stale...)
+				staleMu.Unlock()
+				if len(w) > 0 {
+					d.r.v("stale-terminator-stops-restarted-app", "round %d: a terminator of an earlier run interfered (%v); no member is left but the state stays %s; trace %v; callbacks %v", r, w, appState(a.Name), trace, a.CBs())
+				} else {
+					d.r.v("restart-loop-app-never-stops", "round %d: no member is left but the state stays %s; trace %v; callbacks %v", r, appState(a.Name), trace, a.CBs())
+				}
 			} else {
 				d.incon("watchdog: application did not reach loaded; trace %v", trace)
 			}
@@ -1094,6 +1100,7 @@ func runRestartLoop(k int) {
 		return
 	}
 	cancel()
+	cancelU()
 	d.fired = true
 	st := appState(a.Name)
 	starts, terms := a.count("start"), a.count("terminate")
@@ -1145,7 +1152,7 @@ func runRestartLoop(k int) {
 	}
 	switch {
 	case len(staleW) > 0:
-		d.r.v("stale-terminator-stops-restarted-app", "a terminator of an earlier run reached the final state swap of a later run and stopped it (state, Terminate callback, stop channel) although its members run: %v; %s", staleW, ctx)
+		d.r.v("stale-terminator-stops-restarted-app", "a terminator of an earlier run (two terminators of that run had seen an empty group) reached the final state swap of a later run and reset its state (later the run's own last terminator finds state loaded: no Terminate callback, stop channel never closed, stop request times out; or the run is loaded with live members): %v; %s", staleW, ctx)
 	case shutdownFromNowhere && terms > stops:
 		d.r.v("stale-terminator-stops-restarted-app", "members of the last run, for which nothing was requested, received a shutdown exit signal (only application.terminate of a permanent/transient run sends these without a stop request, here on behalf of a member of an earlier run): %s", ctx)
 	case doubleClose || nilReason:
@@ -1208,6 +1215,15 @@ func runAllDirected() {
 	}
 	for _, v := range []string{"stop-timeout", "force", "death-permanent", "death-transient"} {
 		runUnloadWhileStopping(v)
+	}
+	for _, m := range []gen.ApplicationMode{trans, perm} {
+		for _, h1 := range []string{"custom", "panic", "kill"} {
+			for _, h2 := range []string{"custom", "kill", "panic"} {
+				if reasonOfHow(h1) != reasonOfRelease(h2) {
+					runSecondDeathWhileStopping(m, h1, h2)
+				}
+			}
+		}
 	}
 	for k := 0; k < hk.Pick(30, 300); k++ {
 		runUnloadVsStop(k)
@@ -1691,5 +1707,73 @@ func runUnloadVsStop(k int) {
 		} else {
 			d.r.v("unload-vs-stop-terminate-count", "Terminate callback ran %d times: %s", terms, ctx)
 		}
+	}
+}
+
+// --- a second abnormal death while the application is already stopping ------------------------
+
+// runSecondDeathWhileStopping (sequential, quiescent between the two deaths): member 0 dies with
+// R1 and thereby stops the application (mode rule); the last member is busy in a handler, so the
+// application stays in state stopping; then that member terminates with a different abnormal
+// reason R2. The Terminate callback must get the causing reason R1.
+func runSecondDeathWhileStopping(mode gen.ApplicationMode, how1, how2 string) {
+	id := fmt.Sprintf("D/second-death-while-stopping/%s/%s-then-%s", mode, how1, how2)
+	if !want(id) {
+		return
+	}
+	d := newD(id, "second-death-while-stopping")
+	defer d.finish()
+	n := 3
+	a := d.app(n, mode)
+	defer a.releaseAll()
+	if !d.loadStart(a, "start") || !d.settle(a) {
+		return
+	}
+	cur := a.cur()
+	busy := cur[n-1].I.PID
+	if !a.blockMember(busy) {
+		d.incon("watchdog: member did not enter the blocking handler")
+		return
+	}
+	r1, pnc := killMember(cur[0].I.PID, how1)
+	if pnc != nil {
+		d.r.v("api-panic-kill", "%v", pnc)
+		return
+	}
+	if !d.settle(a) {
+		return
+	}
+	st0, up0, t0 := appState(a.Name), a.aliveSlots(), a.count("terminate")
+	if st0 != "stopping" || len(up0) != 1 || t0 != 0 {
+		ctx := fmt.Sprintf("%s application, 3 members, member 2 busy in a handler, member 0 terminated with %v: at quiescence state=%s alive=%v Terminate callbacks=%d", mode, r1, st0, up0, t0)
+		d.r.v("second-death-while-stopping-first-stop-wrong", "the application must be stopping with only the busy member left: %s", ctx)
+		return
+	}
+	d.fired = true
+	r2 := reasonOfRelease(how2)
+	a.releaseMemberWith(busy, how2)
+	if !d.settle(a) {
+		return
+	}
+	st1 := appState(a.Name)
+	var terms []cbEv
+	for _, c := range a.CBs() {
+		if c.Kind == "terminate" {
+			terms = append(terms, c)
+		}
+	}
+	ctx := fmt.Sprintf("%s application, 3 members: member 0 terminates with %v -> state stopping (member 1 shut down, member 2 busy in a handler); at quiescence member 2 terminates with %v; then state=%s alive=%v callbacks=%v", mode, r1, r2, st1, a.aliveSlots(), a.CBs())
+	d.detail["context"] = ctx
+	d.class = fmt.Sprintf("terms=%v", terms)
+	if st1 != "loaded" || len(a.aliveSlots()) != 0 || len(terms) != 1 {
+		d.r.v("second-death-while-stopping-not-finalized", "%s", ctx)
+		return
+	}
+	if terms[0].reason != r1 {
+		sig := "second-death-while-stopping-terminate-reason"
+		if terms[0].reason == r2 {
+			sig = "terminate-reason-overwritten-by-later-death"
+		}
+		d.r.v(sig, "Terminate(%v): the causing reason is %v (the member whose termination stopped the application): %s", terms[0].reason, r1, ctx)
 	}
 }
